@@ -76,7 +76,7 @@ theorem fresh_served (c0 : Cfg) (ops : List Op) (now : Int) (key : Key) (e : Ent
   rcases lookupEntry_cases (run (start c0) ops).1.cfg now false e with ⟨_, hc | hc⟩ | hc | hc
   · obtain ⟨ttl, _, heq⟩ := hc
     have hstep : (step (run (start c0) ops).1 (.lookup now key false)).2 =
-        LRes.hit (freshServed (touch e now) ttl (decide ((touch e now).nAns > 0) || (touch e now).ns == 1)) := by
+        LRes.hit (freshServed (touch e now) ttl (packedVisible (touch e now))) := by
       simp only [step, State.lookup, hf, heq]
     exact ⟨_, hstep, rfl, rfl, rfl, rfl⟩
   · obtain ⟨_, heq⟩ := hc
@@ -200,7 +200,7 @@ theorem stale_served_at_once (c0 : Cfg) (ops : List Op) (now : Int) (key : Key) 
   · obtain ⟨_, _, ttl, hs, heq⟩ := hc
     have hstep : (step (run (start c0) ops).1 (.lookup now key false)).2 =
         LRes.hit ⟨(touch e now).id, (touch e now).src, (touch e now).ans, (touch e now).nAns, ttl,
-          decide ((touch e now).nAns > 0) || (touch e now).ns == 1, true, !(touch e now).refreshing⟩ := by
+          packedVisible (touch e now), true, !(touch e now).refreshing⟩ := by
       simp only [step, State.lookup, hf, heq]
     exact ⟨_, hstep, rfl, rfl, rfl, rfl⟩
   · obtain ⟨_, hor, _⟩ := hc
